@@ -99,7 +99,7 @@ def random_table(rng, nmodels=None, shared_identities=True, altlocs=True, close_
     serial = rng.choice([0, 0, 0, 9990, 99000]) if serial_start is None else serial_start
     rows = []
     # model numbers need not be 1..N (a selection from an ensemble keeps its numbers)
-    numbering = rng.choice(["1..N", "1..N", "offset", "gaps"]) if model_numbers is None else model_numbers
+    numbering = rng.choice(["1..N", "1..N", "offset", "gaps", "unordered"]) if model_numbers is None else model_numbers
     if numbering == "offset":
         off = rng.choice([1, 2, 6])
         mnum = {m: m + off for m in range(1, nmodels + 1)}
@@ -108,6 +108,12 @@ def random_table(rng, nmodels=None, shared_identities=True, altlocs=True, close_
         for m in range(1, nmodels + 1):
             mnum[m] = cur
             cur += rng.choice([1, 2, 3, 5])
+    elif numbering == "unordered" and nmodels > 1:
+        # the first model of the file is not the lowest-numbered one (3, 1, 2 / 7, 4)
+        nums = rng.sample(range(1, nmodels + 4), nmodels)
+        if nums[0] == min(nums):
+            nums[0], nums[-1] = nums[-1], nums[0]
+        mnum = {m: nums[m - 1] for m in range(1, nmodels + 1)}
     else:
         mnum = {m: m for m in range(1, nmodels + 1)}
     for m in range(1, nmodels + 1):
